@@ -902,11 +902,17 @@ func Run(c *ev.Ctx) int {
 	c.Assume("transparency is judged relative to a versitygw posix endpoint (E) and an identical reference gateway (D) on a separate empty store; AWS-only behaviour (SSE, storage classes) is out of reach offline")
 	c.Assume("normalised before comparing: dates, Last-Modified (presence only), request ids, upload ids (by program slot), version ids (presence), owner display names, Server header, gateway addresses, error message text and Resource")
 	c.Assume("an operation the proxy answers with 501 is 'not offered' and not judged; mutations the proxy does not offer are not sent to the reference")
-	c.Assume("the proxy runs with AWS_EC2_METADATA_DISABLED=true and AWS_REQUEST_CHECKSUM_CALCULATION=when_required (see lane http-default for the behaviour without the latter)")
+	c.Assume("the proxy runs with AWS_EC2_METADATA_DISABLED=true and otherwise as documented; only when lane http-default observes that a proxy started that way cannot upload to a plain http endpoint at all (SDK default request checksums, a recorded finding) the programs run with AWS_REQUEST_CHECKSUM_CALCULATION=when_required in the proxy's environment")
 	if w := os.Getenv("C18_PROBE"); w != "" {
 		laneProbe(c, w)
 		return 2
 	}
+	// lane http-default first: it tells whether the proxy as documented can upload at all
+	proxyExtraEnv := []string{}
+	if !laneHTTPDefault(c) {
+		proxyExtraEnv = []string{"AWS_REQUEST_CHECKSUM_CALCULATION=when_required"}
+	}
+	c.Set("proxy_extra_env", proxyExtraEnv)
 	n := c.Pick(30, 400)
 	rs := c.Rng("programs")
 	type job struct {
@@ -925,7 +931,7 @@ func Run(c *ev.Ctx) int {
 		go func() {
 			defer wg.Done()
 			for j := range ch {
-				p, err := newProg(c, j.id, j.seed, []string{"AWS_REQUEST_CHECKSUM_CALCULATION=when_required"})
+				p, err := newProg(c, j.id, j.seed, proxyExtraEnv)
 				if err != nil {
 					c.Inconclusive("gateway start: " + firstLine(err.Error()))
 					continue
@@ -949,9 +955,6 @@ func Run(c *ev.Ctx) int {
 	}
 	close(ch)
 	wg.Wait()
-	if c.Want("http-default") {
-		laneHTTPDefault(c)
-	}
 	notOfferedMu.Lock()
 	var no, an []string
 	for k := range notOffered {
